@@ -507,6 +507,8 @@ class SymCtx:
             if r == z3.sat:
                 status, backend = 'failed', be
                 vals = self.model_values(fail_model)
+                if getattr(self.I, 'env_nondet', None):
+                    detail = 'nondet-env: this path depends on a choice the native run cannot be given (%s)' % '; '.join(self.I.env_nondet)
                 break
             status, backend, detail = 'undecided', be, 'solver unknown on conjunct %s' % str(g)[:200]
         dt = time.time() - t0
